@@ -150,7 +150,7 @@ def run(rep):
         stats['compared_model'] += 1
         tri = c.impl.split(' ')[0]
         stats[tri] = stats.get(tri, 0) + 1
-        if ec.impl_core(c) != c.model:
+        if ec.impl_core(c) != ec.model_core(c):
             corr_bad.append(c)
         sp = ec.spec_plan(c)
         if sp is None:
@@ -183,7 +183,7 @@ def run(rep):
         rep.violation({'obligation': 'correspondence expr.c/match.c <-> Model/Eval.lean: the real evaluator and the Lean model disagree; the '
                                      'documented semantics evaluated on the implementation output found no failing input',
                        'disagreements': len(corr_bad),
-                       'examples': [dict(c.readable(), implementation=ec.impl_core(c), model=c.model) for c in corr_bad[:5]]}, False)
+                       'examples': [dict(c.readable(), implementation=ec.impl_core(c), model=ec.model_core(c)) for c in corr_bad[:5]]}, False)
     vlib.lean_conclude(rep)
     nontriv = set((c.conf, c.msg) for c in cases if c.model is not None and c.impl.startswith('MATCH') and c.conf.count('match') >= 2)
     rep.coverage.update({
